@@ -529,7 +529,7 @@ pub fn run(tier: Tier) -> i32 {
     rep.rule = "(i) every coefficient hypergeometric_pmf(N,K,n,k) for all 0<=K,n<=N, 0<=k<=n+1 up to the bound, plus a ladder of large N on a boundary grid, against an exact-integer / compensated-log reference; (ii) Spectrum::project of every basis vector of every shape in the bound to every admissible target (a linear map is decided by its basis images) plus a non-linear-looking ramp; (iii) laws (mass, non-negativity, bit-exact identity, two-step via every intermediate shape, commutation with marginalization, create-then-project); (iv) every invalid target in a box; (v) `sfs view --project-shape/-p`. Non-trivial = strictly smaller target with interior source index / interior coefficient.".into();
 
     // (i)
-    let nmax = tier.pick(60u64, 200u64);
+    let nmax = tier.pick(72u64, 200u64);
     let ns: Vec<u64> = (0..=nmax).collect();
     let res = par_each(&ns, |&n| coef_full(n));
     let (mut ev, mut nt) = (0, 0);
@@ -767,7 +767,7 @@ pub fn run(tier: Tier) -> i32 {
     });
 
     // large sizes
-    let mut larges: Vec<usize> = vec![171, 340, 1029, 1030, 2000];
+    let mut larges: Vec<usize> = vec![171, 340, 1029, 1030, 2000, 4100];
     if tier.thorough() {
         larges.extend([4000, 8000]);
     }
@@ -778,6 +778,43 @@ pub fn run(tier: Tier) -> i32 {
         for (k, w, j) in v {
             rep.violation(k, w, j);
         }
+    }
+    // spectra with more than 4096 / 65536 entries on several axes, projected to small targets
+    {
+        let bigs: Vec<(Vec<usize>, Vec<usize>)> = vec![
+            (vec![65, 65], vec![5, 5]),
+            (vec![65, 65], vec![64, 2]),
+            (vec![17, 17, 17], vec![3, 3, 3]),
+            (vec![4201], vec![11]),
+            (vec![9, 9, 9, 9], vec![2, 3, 2, 3]),
+            (vec![300, 221], vec![4, 3]),
+        ];
+        let res = par_map(bigs.len(), |i| {
+            let (shape, to) = &bigs[i];
+            let cells: usize = shape.iter().product();
+            // every entry carries mass, the last ones in particular
+            let x = RefArray::from_fn(shape, |f, _| if f + 3 >= cells { 1200.0 } else { ((f * 11) % 23 + 1) as f64 });
+            let expect = x.project(to);
+            match project_real(&x, to) {
+                Ok(Ok(g)) if arr_close(&g, &expect) => None,
+                other => Some((
+                    "C03|lib|big-spectrum-wrong".to_string(),
+                    format!("project {shape:?} ({cells} entries) -> {to:?}: {:?}; reference mass {} first entries {:?}", other.map(|r| r.map(|g| (g.sum(), g.data[..3].to_vec()))), expect.sum(), &expect.data[..3]),
+                    lib_case(shape, to, "big"),
+                )),
+            }
+        });
+        for v in res.into_iter().flatten() {
+            rep.violation(v.0, v.1, v.2);
+        }
+        rep.part(Part {
+            name: "lib: spectra of thousands of entries on several axes".into(),
+            evaluations: bigs.len() as u64,
+            nontrivial: bigs.len() as u64,
+            note: "65x65, 17^3, 9^4, 300x221 and 4 201 entries (odd entry counts, mass in the last entries) projected to small targets, every target entry against the reference".into(),
+            exhaustive: true,
+            extra: vec![],
+        });
     }
     rep.part(Part {
         name: "lib: one-axis spectra of thousands of chromosomes".into(),
@@ -900,6 +937,28 @@ pub fn replay(case: &J) -> Option<Vec<String>> {
             let v = match what {
                 "errors" => check_errors(&shape).1,
                 "large" => check_large(shape[0] - 1).1,
+                "large2" | "big" => {
+                    // one projection of a large spectrum: re-run exactly that projection (on a fresh thread)
+                    let to = case.get("to")?.as_usizes()?;
+                    let cells: usize = shape.iter().product();
+                    let x = if what == "big" {
+                        RefArray::from_fn(&shape, |f, _| if f + 3 >= cells { 1200.0 } else { ((f * 11) % 23 + 1) as f64 })
+                    } else {
+                        RefArray::from_fn(&shape, |f, _| ((f * 13) % 17 + 1) as f64)
+                    };
+                    let expect = x.project(&to);
+                    let got = std::thread::spawn({
+                        let x = x.clone();
+                        let to = to.clone();
+                        move || project_real(&x, &to)
+                    })
+                    .join();
+                    return Some(match got {
+                        Ok(Ok(Ok(g))) if g.shape == expect.shape && g.data.iter().zip(&expect.data).all(|(a, b)| (a - b).abs() <= 1e-8 * b.abs() + 1e-9) => vec![],
+                        other => vec![format!("C03|lib|large-spectrum-wrong :: project {shape:?} -> {to:?}: {:?}", other.map(|r| r.map(|r| r.map(|g| g.sum()))))],
+                    });
+                }
+                _ if shape.iter().product::<usize>() > 4096 => return None,
                 _ => check_shape(&shape).2,
             };
             Some(fmt(v))
